@@ -29,6 +29,7 @@ units.UNITS['JitFrame'] = clunits.gen_jitframe
 units.UNITS['LibWrap'] = clunits.gen_libwrap
 units.UNITS['JitMem'] = clunits.gen_jitmem
 units.UNITS['ApiFx'] = clunits.gen_apifx
+units.UNITS['ClCfg'] = clunits.gen_clcfg
 units.UNITS['ClMisc'] = clunits.gen_clmisc
 units.UNITS['JitEnc'] = clunits.gen_jitenc
 units.UNITS['JitArms'] = clunits.gen_jitarms
